@@ -310,6 +310,14 @@ func genC14(r *rng, n int, tier string, emit func(string, ...string)) {
 		if sub.chance(1, 4) {
 			hint = -1
 		}
+		// thresholds well above the initial capacity of the memory part (512 bytes or the hint): the memory part has to GROW
+		// while it is being filled, with writes larger than what is allocated so far
+		big := sub.chance(1, 10)
+		if big {
+			max = pick(sub, []int{1500, 4000, 20000, 0})
+			hint = pick(sub, []int{-1, 0, 100, 600, 3000})
+			stat("buf-class", "big")
+		}
 		total := 0
 		var ops []string
 		nw := sub.rangeInt(1, 5)
@@ -319,6 +327,12 @@ func genC14(r *rng, n int, tier string, emit func(string, ...string)) {
 				m = 30
 			}
 			d := genBufData(sub, m)
+			if big {
+				d = sub.bytes(pick(sub, []int{1, 300, 511, 512, 513, 600, 900, 1200, 2500, 5000}))
+				for i := 0; i < len(d); i += 97 {
+					d[i] = '\n'
+				}
+			}
 			total += len(d)
 			if sub.chance(1, 3) {
 				style := pick(sub, []string{"whole", "one", "half", "eofwith", "rand"})
@@ -336,7 +350,7 @@ func genC14(r *rng, n int, tier string, emit func(string, ...string)) {
 			var op string
 			switch k := sub.intn(16); {
 			case k < 4:
-				op = fmt.Sprintf("r:%d", pick(sub, []int{0, 1, 2, 3, 7, 10, 50, 100, 101, 300}))
+				op = fmt.Sprintf("r:%d", pick(sub, []int{0, 1, 2, 3, 7, 10, 50, 100, 101, 300, 2000, 20000}))
 			case k < 6:
 				op = fmt.Sprintf("pk:%d", pick(sub, []int{0, 1, 4, 5, 10, 100, 300}))
 			case k < 8:
